@@ -222,7 +222,7 @@ def run(ctx):
     dspecs = combined_specs(rng, ctx.scale(10, 26))
     dspecs.append({"kind": "combined", "alpha": 1.0, "beta": 1.0, "delta": 1.0, "pos": None, "cat": None})
     dspecs.append({"kind": "combined", "alpha": 3.0, "beta": 1.0, "delta": 0.5, "pos": None, "cat": None})
-    for i in range(ctx.scale(380, 3000)):
+    for i in range(ctx.scale(380, 10000)):
         if ctx.out_of_time():
             break
         dspec = rng.choice(dspecs)
@@ -242,7 +242,7 @@ def run(ctx):
         ctx.observe("cat_component", (dspec.get("cat") or {"kind": "absolute(default)"})["kind"])
         ctx.observe("alpha", dspec["alpha"])
         check_case(ctx, case)
-    for i in range(ctx.scale(16, 100)):
+    for i in range(ctx.scale(16, 300)):
         if ctx.time_left() < -120:
             break
         dspec = rng.choice(dspecs)
